@@ -5,7 +5,7 @@ ROOT="$(cd "$(dirname "${BASH_SOURCE[0]}")/.." && pwd)"
 cd "$ROOT"
 miss=0; n=0
 # changes that do not violate the property they were written against (DESIGN.md sections 9 and 11): expected to pass
-DOCUMENTED="mutants/C09-validate-restores-dense-only.patch mutants/C11-subtract-order-in-loop.patch mutants/C13-window-one-longer.patch mutants/data-dependent/C12-data/ mutants/data-dependent/C01-data/"
+DOCUMENTED="mutants/C09-validate-restores-dense-only.patch mutants/C11-subtract-order-in-loop.patch mutants/C13-window-one-longer.patch mutants/data-dependent/C12-data/ mutants/data-dependent/C01-data/ seeded/C02-wave9/"
 doc=0
 run() { # patch prop label
   n=$((n+1))
